@@ -29,9 +29,12 @@ class GaussModel:
             self.calls.append(dict(kw))
         logl, logp = self.evaluate(kw)
         if self.blobs:
-            xs = [float(kw[p]) for p in self.params]
-            return logl, logp, {'b0': xs[0] * 2.0, 'b1': float(len(self.calls)) if False else xs[-1] + 1.0}
+            return logl, logp, self.expected_blob(kw)
         return logl, logp
+
+    def expected_blob(self, kw):
+        xs = [float(kw[p]) for p in self.params]
+        return {'b0': xs[0] * 2.0, 'b1': xs[-1] + 1.0}
 
 
 class FlatModel(GaussModel):
@@ -55,9 +58,7 @@ class TDModel:
         self.calls = []
         self.log = log
 
-    def __call__(self, **kw):
-        if self.log:
-            self.calls.append(dict(kw))
+    def evaluate(self, kw):
         logl, logp = 0.0, 0.0
         nact = 0
         for i in range(1, self.n + 1):
@@ -74,6 +75,16 @@ class TDModel:
         if k != nact or not (0 <= k <= self.n):
             logp = -numpy.inf
         logl -= 0.3 * nact
-        if self.blobs:
-            return logl, logp, {'b0': float(nact), 'b1': logl * 2.0}
         return logl, logp
+
+    def __call__(self, **kw):
+        if self.log:
+            self.calls.append(dict(kw))
+        logl, logp = self.evaluate(kw)
+        if self.blobs:
+            return logl, logp, self.expected_blob(kw)
+        return logl, logp
+
+    def expected_blob(self, kw):
+        nact = sum(1 for i in range(1, self.n + 1) if float(kw['a%d' % i]) == float(kw['a%d' % i]))
+        return {'b0': float(nact), 'b1': self.evaluate(kw)[0] * 2.0}
